@@ -1,0 +1,18 @@
+//go:build verif
+
+package ugo
+
+// VerifTraceHook, when set, is called once per executed instruction with the
+// VM's control state. Verification instrumentation only (build tag verif).
+var VerifTraceHook func(frameIndex, ip, sp, numHandlers int, op byte)
+
+func verifTrace(vm *VM) {
+	if VerifTraceHook == nil {
+		return
+	}
+	n := 0
+	if vm.curFrame != nil && vm.curFrame.errHandlers != nil {
+		n = len(vm.curFrame.errHandlers.handlers)
+	}
+	VerifTraceHook(vm.frameIndex, vm.ip, vm.sp, n, vm.curInsts[vm.ip])
+}
